@@ -83,12 +83,19 @@ class Ctx:
         self.notes = []
 
 
-def run_script(ctx, name, lines, kind="asan", impl_mode="run", want_oracle=True, want_model=True):
+def run_script(ctx, name, lines, kind="asan", impl_mode="run", want_oracle=True, want_model=True, expand=False):
     """run one script through implementation, model and oracle.
     returns dict(impl_rc, impl_err, mismatches, oracle_fails, impl_lines)"""
     sp = os.path.join(ctx.dir, name + ".script")
     with open(sp, "w") as fh:
         fh.write("\n".join(lines) + "\n")
+    if expand:
+        # item lines -> bytes + expected tokens, by the extracted Proto.v
+        sp0 = sp + "0"
+        os.rename(sp, sp0)
+        rce, erre = run_driver(ctx.model, "expand", sp0, sp)
+        if rce != 0:
+            raise RuntimeError("expand failed: " + erre)
     oi = os.path.join(ctx.dir, name + ".impl.out")
     om = os.path.join(ctx.dir, name + ".model.out")
     oo = os.path.join(ctx.dir, name + ".oracle.out")
